@@ -85,6 +85,8 @@ class Prop(PropBase):
         if z.start_time is None:
             return self.Time(sigs.T0S[0], precision=9), None
         tt = z.start_time + float(t) * z.dt
+        if case.get("seed", 0) % 3 == 1:
+            tt = tt.tai if case.get("seed", 0) % 2 else tt.tt      # the same instant on another time scale
         seen = ((tt - z.start_time).to(u.s) * z.sample_rate).to_value(u.one)
         return tt, X.frac(float(seen))
 
